@@ -2083,9 +2083,15 @@ class HealSparseMap(object):
         elif self._is_wide_mask:
             raise RuntimeError("Cannot convert datatype of a wide mask.")
 
-        new_sparse_map = np.zeros(self._sparse_map.shape, dtype=dtype)
-        valid_pix = (self._sparse_map != self._sentinel)
-        new_sparse_map[valid_pix] = self._sparse_map[valid_pix].astype(dtype)
+        if self._is_bit_packed:
+            # Compare and convert the boolean values, not the packed array object.
+            sparse_map = np.asarray(self._sparse_map)
+        else:
+            sparse_map = self._sparse_map
+
+        new_sparse_map = np.zeros(sparse_map.shape, dtype=dtype)
+        valid_pix = (sparse_map != self._sentinel)
+        new_sparse_map[valid_pix] = sparse_map[valid_pix].astype(dtype)
 
         _sentinel = check_sentinel(new_sparse_map.dtype.type, sentinel)
         new_sparse_map[~valid_pix] = _sentinel
